@@ -160,6 +160,10 @@ func genHist(prop string, seed uint64, tier string) *Scenario {
 		}
 		genParams(r, sc, &op)
 		ts.Ops = append(ts.Ops, op)
+		if r.chance(0.08) {
+			// fault event: some variable's buffer becomes large and stale
+			ts.Ops = append(ts.Ops, Op{ID: 2000 + i, Name: "~dirty", Z: r.intn(nv), I: int64(r.rangeI(2, 60)), M: r.intn(3)})
+		}
 		if nanRate > 0 && r.intn(100) < nanRate {
 			// fault event: make some variable special so that invalid classes arise
 			sp := Op{ID: 1000 + i, Name: r.pickS("SetInf", "SetInf", "SetInt64", "Neg"), Z: r.intn(nv)}
